@@ -336,3 +336,11 @@ func TestVerifC03Mixed(t *testing.T) {
 }
 
 var _ = gabikeys.DefaultEpochLength
+
+// TestVerifC03DegenerateA: forged proofs whose A is not a unit modulo n (see vfDegenerateAForgeries).
+func TestVerifC03DegenerateA(t *testing.T) {
+	r := vkit.Start(t, "C03", "degenerate-signature-element", 120*time.Second, 300*time.Second)
+	defer r.Finish()
+	r.Rule = "keys {toyA, k1024a} x A in {0, n, 2n, n(n+1)} x {single proof, second member of a list with the secret-key response of the honest first member}; challenge computed from what the verifier reconstructs; non-trivial = distinct forgery; oracle: never accepted"
+	vfDegenerateAForgeries(r, "C03", []string{"toyA", "k1024a"})
+}
